@@ -1112,6 +1112,10 @@ def check_c20(prop, tier, seed):
                      ep_prog('ep_seq_boundary', 3, ['TURN:1 G NEXT TURN:3 D NEXT', 'TURN:5 G NEXT TURN:7 D NEXT',
                                                       'TURN:0 FQ:300 F NEXT TURN:2 FQ:466 F NEXT TURN:4 F F NEXT TURN:6 FQ:250 F F NEXT TURN:8 F FQ:520 F NEXT'])],
                  dict(pb=0, max_exec=2)))
+    # sequential, with thread generations on a capacity-2 manager: the second generation reuses the IDs (and slots) of the first
+    plan.append((2, [ep_prog('ep_seq_reuse', 2, ['TURN:0 G NEXT TURN:2 D NEXT', 'TURN:1 F NEXT TURN:3 F NEXT || TURN:4 GL NEXT TURN:6 RL D NEXT | '
+                                                 'TURN:5 F F NEXT TURN:7 F NEXT || TURN:8 G NEXT TURN:10 D NEXT | TURN:9 FQ:300 F NEXT TURN:11 F NEXT'],
+                             hashes=[0, 1, 0, 1, 1, 0])], dict(pb=0, max_exec=2)))
     res = thread_check(prop, tier, seed, plan, epoch_history, 'EpochAbsTrace.tla', epoch_cfg(['CkSeq', 'CkMono'], prop),
                        epoch_describe, statuses=('ok', 'stuck'))
     res['assumptions'] = EPOCH_ASSUME + ['sequential histories: a TURN/NEXT hand-shake in the harness lets exactly one thread run at a '
